@@ -24,7 +24,8 @@ from ..engines import e1, scripted, refmodel
 from pexpect.exceptions import EOF, TIMEOUT
 
 PROPERTY = 'C20'
-RULE = ('Hypothesis-generated (pattern text from a regex grammar with case-sensitive letters, "." vs newline, '
+RULE = ('[the empty pattern is among the generated patterns] '
+        'Hypothesis-generated (pattern text from a regex grammar with case-sensitive letters, "." vs newline, '
         '^/$ and verbose white space; flags subset of {I,M,X,S,A}; stream; read splitting; ignorecase; bytes|utf-8) '
         'evaluated under up to 12 pattern forms x 3 entry points on fresh objects over the scripted transport, each '
         'compared with the naive model run with the reference regex of that form; plus invalid objects at every '
